@@ -1,6 +1,6 @@
 (* Properties_C03.v — C03: listener management and dispatch are thread-safe and linearizable.
 
-   PARTIAL.  Proved (CLConcProofs.v, on the very group operations of the sequential proofs):
+   PARTIAL (see the end of this comment).  Proved (CLConcProofs.v, on the very group operations of the sequential proofs):
    every adding / removing / querying call has ONE critical section that reads and writes all
    that determines its result; for EVERY order in which the threads' sections execute, with
    ARBITRARY non-zero counters (they are drawn before the mutex is taken), the list stays well
@@ -8,13 +8,19 @@
    in that order — which respects program order and real-time order since each section lies
    inside its call.  Hence a callback is removed successfully at most once, none is lost or
    duplicated, and the final order is that sequential execution's.
+   A traversal running while other threads execute such sections is proved correct for EVERY
+   interleaving of its own steps (look at the current node; node = node->next under the mutex)
+   with the other threads' sections (CLTrav.v, theorem C03_traversal_under_interference below):
+   nothing is visited twice, and whatever was in the list at the start, passes the visit test and
+   is not removed meanwhile has been visited at the end.
    The thread-level model CLConc.v (visible actions on the list mutex and currentCounter; the
    traversal steps node = node->next under the mutex and reads the visited node's fields
    outside it) is replayed step for step against the real CallbackList under the cooperative
-   scheduler.  NOT mechanised here: that a traversal interleaved with other threads' sections
-   visits every entry that stays for its whole duration exactly once (the sequential Ext/Frame
-   argument of CLRefine covers interference at visit points only); it is checked by monitors
-   on every replayed schedule. *)
+   scheduler.  NOT mechanised: that every execution of the instruction machine CLConc projects to
+   such a sequence of sections and traversal steps (it does because the sections are mutually
+   exclusive and everything else a call does is thread-local), the clause "respects list order"
+   for traversals under interference, the EventDispatcher's map of lists (tie A: lock scopes), and
+   data-race freedom of the real code (ThreadSanitizer in the thorough tier). *)
 From Coq Require Import List Arith NArith ZArith Bool.
 From EV Require Import CLModel CLHeap CLConcProofs CLConc.
 From EV.gen Require GenCL.
@@ -87,3 +93,30 @@ Print Assumptions C03_spinlock_as_in_the_header_excludes.
 
 Theorem C03_spinlock_memory_orders : GenSpin.lock_order = GenSpin.acquire /\ GenSpin.unlock_order = GenSpin.release.
 Proof. split; reflexivity. Qed.
+
+(* a traversal (invocation / enumeration) interleaved with other threads' sections — for EVERY
+   sequence of events TOther s | TVisit | TAdvance, any length and any mix, other threads' counters
+   arbitrary (CLTrav.v): no callback is visited twice, and every callback that was in the list when
+   the traversal started, passes the visit test against the captured counter, and is not removed
+   while the traversal runs, has been visited when the traversal ends *)
+From EV Require Import CLTrav.
+
+Theorem C03_traversal_under_interference :
+  forall capt g ids evs,
+    GInv g ids ->
+    (forall z, In z ids -> exists nd, nth_error (heap g) z = Some nd /\ GenCL.visit_cond (ctr nd) capt = true) ->
+    Forall ev_ok evs ->
+    let st := trun capt (tinit g ids) evs in
+    NoDup (tvis st) /\
+    (tcur st = None -> forall z, In z ids -> ~ In z (tgone st) -> In z (tvis st)).
+Proof. exact traversal_under_interference. Qed.
+Print Assumptions C03_traversal_under_interference.
+
+(* non-vacuity: list [0;1;2]; while the traversal stands on node 0 another thread removes node 1 and
+   inserts a new node (counter 9 > captured 5) before node 2; nodes 0 and 2 are visited, once each *)
+Example C03_traversal_example :
+  let g := fst (run_secs empty_group [SBack 10 1%N; SBack 11 2%N; SBack 12 3%N]) in
+  let st := trun 5%N (tinit g [0; 1; 2])
+                 [TVisit; TOther (SRemove (Some 1)); TAdvance; TOther (SBefore 13 9%N (Some 2)); TVisit; TAdvance; TVisit; TAdvance] in
+  tvis st = [0; 2] /\ tcur st = None /\ tgone st = [1] /\ tids st = [0; 3; 2].
+Proof. vm_compute. repeat split; reflexivity. Qed.
